@@ -136,6 +136,7 @@ def solve(hyps, goal, axioms=(), timeout_ms=10000, want_model=True):
 def cvc5_check(smt, timeout_ms):
     from . import budget
     t0 = time.time()
+    cpu0 = budget.children_cpu()
     path = None
     try:
         with tempfile.NamedTemporaryFile("w", suffix=".smt2", delete=False) as f:
@@ -143,15 +144,17 @@ def cvc5_check(smt, timeout_ms):
             path = f.name
         wall = budget.wall_ms(timeout_ms, "cvc5")
         p = subprocess.run(["/usr/bin/cvc5", f"--rlimit={budget.rl(timeout_ms, 'cvc5')}", f"--tlimit={wall}", path],
-                           capture_output=True, text=True, timeout=wall / 1000 + 10)
+                           capture_output=True, text=True, timeout=wall / 1000 + 10,
+                           preexec_fn=budget.limit_cpu(budget.cpu_s(timeout_ms, "cvc5")))
         out = p.stdout.strip().splitlines()
         res = out[0] if out else "error"
-        if res not in ("sat", "unsat") and (time.time() - t0) * 1000 >= wall * 0.95:
+        if res not in ("sat", "unsat") and (time.time() - t0) * 1000 >= wall * 0.95 and budget.stopped_by_wall_clock(cpu0, timeout_ms, "cvc5"):
             budget.wall_hit("cvc5")
         budget.log("cvc5", res, 0, time.time() - t0, budget.rl(timeout_ms, "cvc5"))
         return res, time.time() - t0
     except subprocess.TimeoutExpired:
-        budget.wall_hit("cvc5")
+        if budget.stopped_by_wall_clock(cpu0, timeout_ms, "cvc5"):
+            budget.wall_hit("cvc5")
         return "error", time.time() - t0
     except Exception as e:  # noqa
         return "error", time.time() - t0
